@@ -326,6 +326,86 @@ func kvCleanupWindow(rec *trace.Recorder, root string, seed int64, h int, sum *t
 	sum.Extra["schedules"] = sum.Extra["schedules"].(int) + 1
 }
 
+// kvCreateWindow: a flush (or the output of nothing else: a plain flusher) is parked right AFTER its table file was
+// created and before it writes anything; the obsolete-file cleanup runs completely (directory listing, live-file set,
+// removals); then the flush goes on, commits, and a new snapshot must read every key of it.  The file of an
+// unfinished writer must be protected from the moment it exists.
+func kvCreateWindow(rec *trace.Recorder, root string, seed int64, h int, sum *trace.Summary) {
+	w := kvwrap.NewWorld(root, rec)
+	defer w.Drop()
+	rng := rand.New(rand.NewSource(seed))
+	opt := kv.DefaultStoreOption()
+	run := &kvRun{w: w, rec: rec, path: root, opt: opt, rng: rng, famOpt: map[string]kv.FamilyOption{}}
+	rec.Reset(trace.F{"mode": "concurrent", "h": h, "scenario": "create-window"})
+	if err := run.open(); err != nil {
+		sum.Unresolved = append(sum.Unresolved, "open: "+err.Error())
+		return
+	}
+	f, err := run.store.CreateFamily("10", kv.FamilyOption{Merger: unionMerger})
+	if err != nil {
+		sum.Unresolved = append(sum.Unresolved, "family: "+err.Error())
+		return
+	}
+	rec.Emit("Proj", trace.F{"proj": kvProj(run.store, w)})
+	for i := 0; i < 1+rng.Intn(2); i++ {
+		run.flush("10", 1+rng.Intn(3), false)
+	}
+	parked := make(chan struct{})
+	release := make(chan struct{})
+	var once sync.Once
+	w.Gate = func(label string) {
+		if w.Thread() == "fl" && label == "table-created" {
+			once.Do(func() {
+				close(parked)
+				<-release
+			})
+		}
+	}
+	done := make(chan struct{})
+	go func() {
+		w.BindThread("fl")
+		run.flushQuiet("10", 1+rng.Intn(3))
+		close(done)
+	}()
+	select {
+	case <-parked:
+	case <-done:
+		sum.Unresolved = append(sum.Unresolved, "create-window: the flush finished without passing the table-created gate")
+		return
+	case <-time.After(5 * time.Second):
+		sum.Unresolved = append(sum.Unresolved, "create-window: the flush did not reach the creation of its table")
+		return
+	}
+	w.BindThread("cl")
+	for i := 0; i < 1+h%2; i++ {
+		kv.VerifDeleteObsoleteFiles(f)
+	}
+	w.BindThread("main")
+	close(release)
+	<-done
+	w.Gate = nil
+	rec.Emit("Proj", trace.F{"proj": kvProj(run.store, w)})
+	snap := f.GetSnapshot()
+	rec.Emit("SnapAcquire", snapFields("check", int(f.ID()), snap, opt.Levels, true))
+	sf := snapFields("check", int(f.ID()), snap, opt.Levels, false)
+	held := map[uint32][]table.Reader{}
+	for k := uint32(0); k < kvKeyUniverse; k++ {
+		if rs, err := snap.FindReaders(k); err == nil {
+			held[k] = rs
+		} else {
+			sf["loaderr"] = fmt.Sprintf("FindReaders(%d): %v", k, err)
+		}
+	}
+	if msg := readHeld(held); msg != "" {
+		sf["loaderr"] = msg
+	}
+	rec.Emit("SnapRead", sf)
+	snap.Close()
+	rec.Emit("SnapClose", trace.F{"id": "check"})
+	run.closeStore()
+	sum.Extra["schedules"] = sum.Extra["schedules"].(int) + 1
+}
+
 // kvReaderCache: a snapshot creates the table readers and closes; a second snapshot gets the same readers from
 // the cache and stays open while the reader cache is cleaned up after its TTL; the open snapshot still reads
 func kvReaderCache(rec *trace.Recorder, root string, seed int64, h int, sum *trace.Summary) {
@@ -732,6 +812,8 @@ func kvConcMain(args []string) int {
 			kvReaderCache(rec, root, rng.Int63(), h, sum)
 		} else if h%10 == 2 {
 			kvDoubleClose(rec, root, rng.Int63(), h, sum)
+		} else if h%10 == 6 {
+			kvCreateWindow(rec, root, rng.Int63(), h, sum)
 		} else if h%10 == 7 {
 			kvOverlappingCommits(rec, root, rng.Int63(), h, sum)
 		} else {
